@@ -47,6 +47,7 @@ def run(ctx):
     cases = []
     n = 0
     nschemas = 60 if quick else 1500
+    tcases_raw = []          # (schema text, mode, principal type, action, resource type, expr)
     for si in range(nschemas):
         sch = schemagen.Schema(r)
         text = sch.text()
@@ -59,6 +60,29 @@ def run(ctx):
             for mode in ('strict', 'permissive'):
                 n += 1
                 cases.append('(case v%d validate %s %s %s %s)' % (n, S(text), mode, sx.dump(p), sx.dump(envs)))
+        # the same condition bodies, type checked one request environment at a time (correspondence with Impl/TypeCheck.v)
+        for p in r.sample(pols, min(len(pols), 12 if quick else 30)):
+            for c in p[6][1:]:
+                a = r.choice(sorted(sch.actions))
+                d = sch.actions[a]
+                env3 = (r.choice(d['principals']), a, r.choice(d['resources']))
+                tcases_raw.append((text, r.choice(['strict', 'permissive']), env3[0], a, env3[2], c[1]))
+                # and its sub-expressions (inferred types other than Bool: records, sets, entities, unions, Long, extension types)
+                subs = []
+
+                def walk(e_):
+                    if isinstance(e_, list) and e_ and isinstance(e_[0], str) and e_[0] not in ('lit', 'var', 'pat'):
+                        for x in e_[1:]:
+                            if isinstance(x, list) and x and isinstance(x[0], str) and x[0] in gen.EXPR_HEADS:
+                                subs.append(x)
+                                walk(x)
+                            elif isinstance(x, list) and x and isinstance(x[0], list):
+                                for y in x:
+                                    if isinstance(y, list) and len(y) == 2 and isinstance(y[1], list):
+                                        subs.append(y[1]); walk(y[1])
+                walk(c[1])
+                for sub in r.sample(subs, min(len(subs), 6)):
+                    tcases_raw.append((text, r.choice(['strict', 'permissive']), env3[0], a, env3[2], sub))
     # targeted historical shapes against a fixed schema that declares what they mention
     fixed = '''entity Group;
 entity User in [Group] { name: String, age?: Long, born: datetime, "__tag:k"?: String } tags String;
@@ -85,6 +109,39 @@ action view appliesTo { principal: [User], resource: [User], context: { flag: Bo
                 'if/and/or) + hazard policies (a failing expression behind a membership / is / == / has guard over entity unions, sets and literals) + targeted historical shapes, in strict and permissive mode; every accepted policy is evaluated on 6 generated '
                 'stores/requests and the runs the validator itself declares conforming must not fail with a forbidden error class. '
                 'non-trivial = accepted and evaluated on at least one conforming environment')
+    # correspondence: expression type checker (hook VerifTypeOf) = Impl/TypeCheck.typeof: verdict and inferred type
+    texts = sorted({t[0] for t in tcases_raw})
+    info = lib.run_go(['(case i%d schemainfo %s)' % (i, S(t)) for i, t in enumerate(texts)], 'schemainfo', ctx.workdir)
+    info_of = {t: info.get('i%d' % i, '(missing)') for i, t in enumerate(texts)}
+    tcases = []
+    for i, (text, mode, pt, a, rt, e) in enumerate(tcases_raw):
+        inf = info_of[text]
+        if not inf.startswith('(info '):
+            continue
+        tcases.append('(case y%d typeof %s %s %s %s %s %s %s)' % (i, S(text), inf, mode, S(pt), sx.dump(gen.vent('Action', a)), S(rt), sx.dump(e)))
+    go_t = lib.run_go(tcases, 'typeof', ctx.workdir, timeout_ms=30000)
+    mo_t = lib.run_model(tcases, 'typeof', ctx.workdir)
+    tm = unk = okc = 0
+    for c in tcases:
+        cid = lib.case_id(c)
+        g_, m_ = go_t.get(cid, '(missing)'), mo_t.get(cid, '(missing)')
+        if m_ == '(unmodelled)':
+            unk += 1
+            continue
+        okc += g_.startswith('(ok')
+        if g_ != m_:
+            tm += 1
+            if tm <= 6:
+                def nm(x):
+                    try:
+                        return sx.unS(sx.parse(x)[1]).decode()
+                    except Exception:
+                        return x
+                ctx.violation('expression type checker: Go and the Coq model (Impl/TypeCheck.v) disagree: go=%s model=%s expr=%s' % (nm(g_), nm(m_), c.split(' ', 9)[-1][:400]),
+                              dict(kind='case', case=c, go=g_, model=m_))
+    ctx.extra['typeof_correspondence'] = dict(cases=len(tcases), accepted=okc, unmodelled=unk)
+    ctx.oblige('correspondence: typeOfExpr (verdict and inferred type, one request environment, both modes) = Impl/TypeCheck.typeof on %d expressions (%d accepted, %d outside the model)'
+               % (len(tcases), okc, unk), 'correspondence', tm == 0)
     go = lib.run_go(cases, 'validate', ctx.workdir, timeout_ms=30000)
     bad = 0
     accepted = rejected = conforming = 0
